@@ -58,7 +58,7 @@ class Stage:
         t = time.time()
         args = ["make", "-j16"] + list(targets)
         if self.hooks:
-            r = subprocess.run("grep -rl --include=*.cc --include=*.h --include=*.c --include=*.cci %s . 2>/dev/null || true" % GUARD,
+            r = subprocess.run("grep -rlF --include=*.cc --include=*.h --include=*.c --include=*.cci %s src lib compat include tools 2>/dev/null || true" % GUARD,
                                shell=True, cwd=self.repo, capture_output=True, text=True)
             self.hooked_files = [f for f in r.stdout.split() if f]
             if self.hooked_files:
